@@ -633,15 +633,27 @@ class Interp:
             return d < 2 and v.kind in ("tuple", "list") and v.items is not None and all(_static(i, d + 1) for i in v.items)
 
         if (it.items is not None and 0 < len(it.items) <= 12 and all(_static(i) for i in it.items)
-                and it.kind in ("list", "tuple") and not s.orelse
-                and not any(isinstance(n, (ast.Break, ast.Continue)) for n in ast.walk(s))):
-            # a loop over a literal display of constants is unrolled (precise getattr / dict keys)
+                and it.kind in ("list", "tuple")):
+            # a loop over a literal display of constants is unrolled (precise getattr / dict keys); `break` / `continue` / `else`
+            # keep their meaning: a pass that certainly breaks ends the loop and skips the else clause
+            frame = self.frames[-1]
             cur = st
+            broke = []
             for item in it.items:
                 if cur is None:
                     break
+                ctx = {"break": [], "continue": []}
+                frame.loops.append(ctx)
                 self.assign(s.target, item, cur, s)
                 cur = self.exec_block(s.body, cur)
+                frame.loops.pop()
+                for c_ in ctx["continue"]:
+                    cur = self.join_states(cur, c_)
+                broke.extend(ctx["break"])
+            if s.orelse and cur is not None:
+                cur = self.exec_block(s.orelse, cur)
+            for b_ in broke:
+                cur = self.join_states(cur, b_)
             return cur
         elem = self.element_of(it, st, s.iter)
         return self._loop(s, st, elem=elem)
@@ -1054,6 +1066,14 @@ class Interp:
                 v = vconst(c)
                 v.name = name
                 v.tags = frozenset(["modconst"])
+                return v
+            if isinstance(c, (tuple, list)) and len(c) <= 32:
+                def _cv(x, d=0):
+                    if isinstance(x, (tuple, list)) and d < 3 and len(x) <= 32:
+                        return Val(kind="tuple" if isinstance(x, tuple) else "list", const=x, dim=D0, items=tuple(_cv(y, d + 1) for y in x))
+                    return vconst(x) if (isinstance(x, (int, float, str, bool)) or x is None) else Val(const=x, kind="other", dim=D0)
+                v = _cv(c)
+                v.name = name
                 return v
             return Val(const=c, kind="other", dim=D0, name=name)
         # evaluate in a throw-away frame of that module
